@@ -262,25 +262,25 @@ func (o *optimizer) etaReduction() {
 	// a declared function (builtins and conversions are not values, variables may
 	// be reassigned), or a method value on a single-assignment iterator variable
 	// generated by the rewriter (a method value evaluates its receiver early).
-	var stableCallee func(ctx astmatcher.Ctx, fun ast.Expr, instantiated bool) bool
-	stableCallee = func(ctx astmatcher.Ctx, fun ast.Expr, instantiated bool) bool {
-		// a generic function is a value only when explicitly instantiated,
-		// id(x) with inferred type arguments can't be reduced to id
+	var stableCallee func(ctx astmatcher.Ctx, fun ast.Expr, typeArgs int) bool
+	stableCallee = func(ctx astmatcher.Ctx, fun ast.Expr, typeArgs int) bool {
+		// a generic function is a value only when all its type arguments are given,
+		// id(x) and conv[int](x) with inferred type arguments can't be reduced to id / conv[int]
 		declared := func(obj types.Object) (sig *types.Signature, ok bool) {
 			fn, ok := obj.(*types.Func)
 			if !ok {
 				return nil, false
 			}
 			sig = fn.Type().(*types.Signature)
-			return sig, instantiated || sig.TypeParams().Len() == 0
+			return sig, sig.TypeParams().Len() == typeArgs
 		}
 		switch f := fun.(type) {
 		case *ast.ParenExpr:
-			return stableCallee(ctx, f.X, instantiated)
+			return stableCallee(ctx, f.X, typeArgs)
 		case *ast.IndexExpr: // instantiation
-			return stableCallee(ctx, f.X, true)
+			return stableCallee(ctx, f.X, 1)
 		case *ast.IndexListExpr:
-			return stableCallee(ctx, f.X, true)
+			return stableCallee(ctx, f.X, len(f.Indices))
 		case *ast.Ident:
 			sig, ok := declared(ctx.ObjectOf(f))
 			return ok && sig.Recv() == nil
@@ -321,7 +321,7 @@ func (o *optimizer) etaReduction() {
 			args := ctx.Binds["args"].(ExprsNode)
 			fun := ctx.Binds["fun"].(ast.Expr)
 			if matched(ctx, params, args) && spreadKept(c.Node().(*ast.FuncLit), params) &&
-				stableCallee(ctx, fun, false) && sameType(ctx, c.Node(), fun) {
+				stableCallee(ctx, fun, 0) && sameType(ctx, c.Node(), fun) {
 				c.Replace(fun)
 			}
 		},
